@@ -12,3 +12,54 @@ def l01(smax, mode="functional", timeout=600, tier="both"):
                 extra_srcs=HDR_X, mode=mode, unwind=smax + 2, units=HDR_UNITS + ["decode_level0_header", "process_level0_path", "process_level0_extended_area", "decode_ftime", "check_l0_checksum"],
                 timeout=timeout, mem_gb=8, tier=tier, stubs=HDR_STUBS,
                 bounds="arbitrary input of 0..%d bytes, level byte 0 or 1 (all other bytes, lengths, checksum symbolic)" % smax)
+
+
+EXT_TYPES = [(0x00, 5), (0x01, 6), (0x02, 6), (0x41, 26), (0x50, 5), (0x51, 7), (0x52, 5), (0x53, 5), (0x54, 7), (0xcc, 14)]
+
+
+def ext(num, dl, mode="functional", leak=False, timeout=300, tier="both"):
+    tag = "other" if num is None else "%02x" % num
+    return dict(name="ext.%s%s%s" % (tag, ".safe" if mode == "safety" else "", ".leak" if leak else ""), src="hdr/ext.c",
+                defines=["DL=%d" % dl] + ([] if num is None else ["NUMSEL=%d" % num]),
+                mode=mode, leak=leak, unwind=dl + 2, unwindset={"ext_header_for_num.0": 12, "verif_memcmp.0": 260}, extra_srcs=["lib/lha_endian.c"],
+                units=["lib/lha_endian.c", "lib/ext_header.c:lha_ext_header_decode,ext_header_for_num + decoder of type " + tag],
+                timeout=timeout, mem_gb=4, tier=tier,
+                bounds="type %s, data of any length 0..%d in an object of exactly that size, arbitrary prior header strings/flags" % (tag, dl))
+
+
+def ext_all(mode="functional", leak=False, tier="both"):
+    return [ext(n, d, mode, leak, tier=tier) for n, d in EXT_TYPES] + [ext(None, 4, mode, leak, tier=tier)]
+
+
+def walk(rl=20, mode="functional", timeout=300, tier="both"):
+    return dict(name="walk.r%d%s" % (rl, ".safe" if mode == "safety" else ""), src="hdr/walk.c", defines=["RL=%d" % rl], extra_srcs=["lib/lha_endian.c"],
+                mode=mode, unwind=rl + 2, unwindset={"decode_extended_headers.0": rl // 3 + 2, "harness.1": rl // 3 + 3},
+                units=["lib/lha_file_header.c:decode_extended_headers", "lib/lha_endian.c"], timeout=timeout, mem_gb=4, tier=tier,
+                stubs=["lha_ext_header_decode: recording stub asserting its data lies inside the raw header (decoders: ext.* harnesses)"],
+                bounds="raw header of any length 0..%d bytes (object of exactly that size), any start offset, levels 1-3, all bytes symbolic" % rl)
+
+
+def l23(level, smax=44, mode="functional", timeout=600, tier="both"):
+    return dict(name="l%d.s%d%s" % (level, smax, ".safe" if mode == "safety" else ""), src="hdr/l23.c", defines=["S_MAX=%d" % smax] + (["LEVEL3"] if level == 3 else []),
+                rename_defs={"lib/lha_file_header.c": ["extend_raw_data", "decode_extended_headers"]}, extra_srcs=HDR_X, mode=mode, unwind=smax + 2,
+                units=HDR_UNITS + ["decode_level%d_header" % level], timeout=timeout, mem_gb=6, tier=tier,
+                stubs=HDR_STUBS + ["decode_extended_headers: recording stub with arbitrary result (justified by walk.*)"],
+                bounds="arbitrary input of 0..%d bytes with level byte %d; length fields, word size, OS type symbolic" % (smax, level))
+
+
+def l1ext(smax=24, mode="functional", timeout=600, tier="both"):
+    return dict(name="l1ext.s%d%s" % (smax, ".safe" if mode == "safety" else ""), src="hdr/l1ext.c", defines=["S_MAX=%d" % smax],
+                rename_defs=RN, extra_srcs=HDR_X, mode=mode, unwind=smax + 2, unwindset={"read_l1_extended_headers.0": smax // 3 + 3, "harness.2": smax // 3 + 4},
+                units=HDR_UNITS + ["read_l1_extended_headers", "read_next_ext_header"], timeout=timeout, mem_gb=6, tier=tier, stubs=HDR_STUBS,
+                bounds="arbitrary remaining stream of 0..%d bytes, arbitrary first size field and packed size" % smax)
+
+
+def tail(ns=3, mode="functional", timeout=600, tier="both", leak=False):
+    return dict(name="tail.n%d%s%s" % (ns, ".safe" if mode == "safety" else "", ".leak" if leak else ""), src="hdr/tail.c", defines=["NS=%d" % ns],
+                rename_defs={"lib/lha_file_header.c": ["decode_level0_header", "decode_level1_header", "decode_level2_header", "decode_level3_header"]},
+                extra_srcs=["lib/crc16.c"], mode=mode, leak=leak, unwind=2 * ns + 3, unwindset={"lha_crc16_buf.0": 6, "ref_crc16_step.0": 9},
+                units=["lib/lha_file_header.c:lha_file_header_read (tail),parse_symlink,split_header_filename,fix_msdos_allcaps,collapse_path,os9_to_unix_permissions,check_common_crc,lha_file_header_full_path,lha_file_header_free", "lib/crc16.c"],
+                timeout=timeout, mem_gb=6, tier=tier,
+                stubs=["decode_level0..3_header: install arbitrary decoded fields (justified by l01/l2/l3/l1ext/walk/ext harnesses)", "calloc/free of the header block: typed static slot",
+                       "sprintf(\"%s%s\"): concatenation model", "strdup: malloc+copy", "islower/tolower: ASCII"],
+                bounds="name and path strings of 0..%d arbitrary bytes each (name without '/'), present or absent; method, OS type, level, flags, permission words, common CRC over 4 raw bytes: all symbolic" % ns)
